@@ -125,7 +125,9 @@ impl Proxy {
     fn finish(mut self) {
         if let Some(h) = self.handle.take() {
             let t0 = Instant::now();
-            while !h.is_finished() && t0.elapsed() < Duration::from_millis(400) {
+            // the pumps end by themselves once both peers have closed; the generous bound only
+            // matters when a peer really keeps its socket open (or the machine is overloaded)
+            while !h.is_finished() && t0.elapsed() < Duration::from_secs(10) {
                 std::thread::sleep(Duration::from_millis(2));
             }
             self.stop.store(true, Ordering::Relaxed);
@@ -384,6 +386,41 @@ fn shape(ev: &[(u64, String)]) -> String {
     format!("{:08x}", crate::gen::pdu::crc32(joined.as_bytes()))
 }
 
+/// Raw requestor that sends A-ABORT (or, as a control, A-RELEASE-RQ) and then *keeps its socket
+/// open*: whether the acceptor closes the connection by itself is otherwise invisible (the library
+/// requestor closes its own end right after sending an abort).
+/// Returns (established, what was sent, outcome) with outcome = "closed" | "data:<type>" | "still-open".
+fn raw_hold(addr: SocketAddr, send_release: bool, hold: Duration) -> Result<(bool, &'static str, String), String> {
+    use dicom_ul::pdu::{AssociationRQ, PresentationContextProposed, UserVariableItem};
+    let mut s = connect(addr).map_err(|e| e.to_string())?;
+    let rq = Pdu::AssociationRQ(AssociationRQ {
+        protocol_version: 1,
+        calling_ae_title: "RAW-SCU".into(),
+        called_ae_title: "ANY-SCP".into(),
+        application_context_name: "1.2.840.10008.3.1.1.1".into(),
+        presentation_contexts: vec![PresentationContextProposed { id: 1, abstract_syntax: "1.2.840.10008.1.1".into(), transfer_syntaxes: vec!["1.2.840.10008.1.2".into()] }],
+        user_variables: vec![UserVariableItem::MaxLength(16_384), UserVariableItem::ImplementationClassUID("1.2.826.0.1.3680043.8.498.30".into())],
+    });
+    let mut b = Vec::new();
+    dicom_ul::pdu::write_pdu(&mut b, &rq).map_err(|e| e.to_string())?;
+    s.write_all(&b).map_err(|e| e.to_string())?;
+    let ans = crate::mon::net::read_raw_pdu(&mut s).map_err(|e| e.to_string())?;
+    if ans[0] != 0x02 {
+        return Ok((false, "", String::new()));
+    }
+    let (what, pdu): (&'static str, [u8; 10]) = if send_release { ("release-rq", [5, 0, 0, 0, 0, 4, 0, 0, 0, 0]) } else { ("abort", [7, 0, 0, 0, 0, 4, 0, 0, 0, 0]) };
+    s.write_all(&pdu).map_err(|e| e.to_string())?;
+    let _ = s.set_read_timeout(Some(hold));
+    let mut got = [0u8; 6];
+    let outcome = match s.read(&mut got) {
+        Ok(0) => "closed".to_string(),
+        Ok(_) => format!("data:{:02x}", got[0]),
+        Err(e) if e.kind() == std::io::ErrorKind::WouldBlock || e.kind() == std::io::ErrorKind::TimedOut => "still-open".to_string(),
+        Err(_) => "closed".to_string(), // reset by peer
+    };
+    Ok((true, what, outcome))
+}
+
 pub fn run(cfg: &Cfg) -> Outcome {
     let leg = cfg.opt("--leg").unwrap_or_else(|| "lib".into());
     let n = if leg == "lib" { cfg.n(1_500, 40_000) } else { cfg.n(160, 1_500) };
@@ -424,6 +461,30 @@ pub fn run(cfg: &Cfg) -> Outcome {
                         run_server(s, &sc2, &log2);
                     }
                 }));
+            }
+            if kind == "storescp" && idx % 4 == 3 {
+                // the acceptor tool must close the connection after an A-ABORT even when the
+                // requestor keeps its own end open (and answer a release request as a control)
+                let send_release = rng.chance(1, 4);
+                l.eval();
+                match raw_hold(upstream, send_release, Duration::from_secs(20)) {
+                    Err(_) => l.count("scenarios_inconclusive_raw", 1),
+                    Ok((false, _, _)) => l.count("scenarios_not_established", 1),
+                    Ok((true, what, outcome)) => {
+                        l.class(format!("storescp|raw-hold|{}|{}", what, outcome));
+                        l.count("scenarios|storescp-raw-hold", 1);
+                        let bad = if what == "abort" { outcome != "closed" } else { outcome != "data:06" };
+                        if bad {
+                            l.violation(
+                                format!("storescp|raw-hold|{}|{}", what, outcome.split(':').next().unwrap_or("")),
+                                format!("after the requestor sent {} and kept its socket open, the acceptor tool's side was: {} (expected: {})", what, outcome, if what == "abort" { "connection closed" } else { "A-RELEASE-RP" }),
+                                json!({"seed": cfg.seed, "stream": 301, "case": idx, "leg": leg2, "raw_hold": what}),
+                            );
+                        }
+                    }
+                }
+                drop(tool_guard);
+                return;
             }
             let Ok(proxy) = start_proxy(upstream, log.clone(), rng.next_u64()) else { return };
             // ---------------- requestor
@@ -476,7 +537,7 @@ pub fn run(cfg: &Cfg) -> Outcome {
             }
         },
     );
-    let mut o = Outcome::new(local, if leg == "lib" { "random action scripts (requestor: 0-3 C-ECHO exchanges then release / abort / drop; acceptor: echo data or not, unsolicited data, spontaneous abort, answer to a release request = reply / abort / data then reply / drop / collision / silence) between the real sync or async ClientAssociation and ServerAssociation through a recording proxy that forwards whole PDUs with pseudo-random delays; per-connection trace (sent / delivered / eof per side + API call and return events) checked against the release and abort clauses of the statement; class = (peer kind, hash of the wire event order)" } else { "the real dicom-storescp (sync / --non-blocking) as acceptor under the same requestor scripts, and the real dicom-echoscu as requestor against the scripted acceptor, through the same delaying recording proxy; wire clauses: the acceptor answers a release request with a release reply, no data after a release request/reply, nothing after an abort, connection closed" });
+    let mut o = Outcome::new(local, if leg == "lib" { "random action scripts (requestor: 0-3 C-ECHO exchanges then release / abort / drop; acceptor: echo data or not, unsolicited data, spontaneous abort, answer to a release request = reply / abort / data then reply / drop / collision / silence) between the real sync or async ClientAssociation and ServerAssociation through a recording proxy that forwards whole PDUs with pseudo-random delays; per-connection trace (sent / delivered / eof per side + API call and return events) checked against the release and abort clauses of the statement; class = (peer kind, hash of the wire event order)" } else { "the real dicom-storescp (sync / --non-blocking) as acceptor under the same requestor scripts, and the real dicom-echoscu as requestor against the scripted acceptor, through the same delaying recording proxy; wire clauses: the acceptor answers a release request with a release reply, no data after a release request/reply, nothing after an abort, connection closed; plus a raw requestor that sends A-ABORT (control: A-RELEASE-RQ) and keeps its socket open: the tool must close its side (answer with A-RELEASE-RP)" });
     o.min_evaluations = if leg == "lib" { 300 } else { 40 };
     o.min_classes = if leg == "lib" { 20 } else { 4 };
     o
